@@ -129,13 +129,15 @@ Lemma dag_sound n e (A : 'M[R]_n) : sound_a e A ->
   sound_u (if short then copy_unit e else dag_unit e) res /\ dag_data = DAdjoint.
 Proof.
 rewrite /sound_a /dag_shortcut_guard /copy_herm /copy_unit /dag_herm /dag_unit.
-move: (fa_h e) (fa_u e)=> ah au [Ha Hu].
-case: ah Ha=> [|[]] /= Ha.
-- split=> //; split=> //; split=> //.
+move: (fa_h e) (fa_u e) (p_same_dims e)=> ah au sd [Ha Hu].
+(* the shortcut is taken only when the cached flag is True (and the labels
+   agree); in every other case the adjoint is built *)
+have Hd : sound_u au (dag A).
   by case: au Hu=> [|[]] //=; rewrite (unitary_dag conjK).
-- by split=> //.
-- split=> //; split; first by rewrite (herm_dag conjK).
-  by split=> //; case: au Hu=> [|[]] //=; rewrite (unitary_dag conjK).
+case: ah Ha=> [|[]] /= Ha; try (case: sd=> /=); try by split.
+- by split=> //; split=> //; rewrite /= (herm_dag conjK).
+- by split=> //; split=> //; rewrite /= (herm_dag conjK).
+- by split=> //; split=> //; rewrite /= (herm_dag conjK).
 Qed.
 
 (* ---- powers *)
